@@ -33,13 +33,13 @@ type codec struct {
 	enc func(p reflect.Value) ([]byte, error)
 	dec func(buf []byte, off int) (p reflect.Value, end int, err error)
 
-	fix     func(p any)                                 // establish record invariants on a generated value
-	baseFix func(p any)                                 // applied to the typical vector before deviations
-	rejects func(p any) string                          // the decoder validates: this encodable value is refused (documented)
-	canon   func(p any)                                 // normal form imposed by the encoder (documented)
-	truncOK func(p any, full []byte, cut int) bool      // documented accepted truncations
-	regime  bool                                        // encoding depends on (network id, ledger height)
-	extra   func() []any                                // additional hand-written values (*T)
+	fix     func(p any)                            // establish record invariants on a generated value
+	baseFix func(p any)                            // applied to the typical vector before deviations
+	rejects func(p any) string                     // the decoder validates: this encodable value is refused (documented)
+	canon   func(p any)                            // normal form imposed by the encoder (documented)
+	truncOK func(p any, full []byte, cut int) bool // documented accepted truncations
+	regime  bool                                   // encoding depends on (network id, ledger height)
+	extra   func() []any                           // additional hand-written values (*T)
 }
 
 var table = map[string]*codec{}
@@ -142,7 +142,9 @@ func buildTable() {
 	std[ccmcom.BlackChainParam](ccmc)
 	// MakeTxParamWithSender: Serialization() ([]byte, error) / Deserialization([]byte) error
 	add(&codec{name: ccmc + ".MakeTxParamWithSender", typ: reflect.TypeOf(ccmcom.MakeTxParamWithSender{}),
-		enc: func(p reflect.Value) ([]byte, error) { return p.Interface().(*ccmcom.MakeTxParamWithSender).Serialization() },
+		enc: func(p reflect.Value) ([]byte, error) {
+			return p.Interface().(*ccmcom.MakeTxParamWithSender).Serialization()
+		},
 		dec: func(buf []byte, off int) (reflect.Value, int, error) {
 			x := new(ccmcom.MakeTxParamWithSender)
 			err := x.Deserialization(buf[off:])
